@@ -143,6 +143,48 @@ def forwarding_matrix():
     return out
 
 
+# ---- address matrix: a callee that only holds a view (or a by-value copy, or reads a constant) tries to obtain a pointer
+#      into it with `&` in every syntactic position an expression can stand in, and writes through that pointer.  As above:
+#      no expectation about acceptance; whatever is accepted must leave the caller's data alone.
+ADDR_HOLD = [
+    # (id, parameter of `callee`, argument in main, place whose address is taken, its type)
+    ("struct-view-member", "b: S", "st", "b.a", "i32"),
+    ("array-view-element", "b: []i32", "data", "b[1]", "i32"),
+    ("sized-array-view-element", "b: [4]i32", "data", "b[1]", "i32"),
+    ("struct-view-nested-array", "b: T", "tt", "b.arr[1]", "i32"),
+    ("constant", "", "", "K", "i32"),
+    ("by-value", "b: i32", "x", "b", "i32"),
+]
+ADDR_POS = [
+    # (id, statements given the place `%s`)
+    ("declaration", "\tvar p: &i32 = &%s;\n\tp = 9;\n"),
+    ("declaration-inferred", "\tvar p = &%s;\n\tp = 9;\n"),
+    ("array-literal", "\tvar ps: []&i32 = [&%s];\n\tps[0] = 9;\n"),
+    ("sized-array-literal", "\tvar ps: [1]&i32 = [&%s];\n\tps[0] = 9;\n"),
+    ("array-literal-2", "\tvar z: i32 = 0;\n\tvar ps: []&i32 = [&z, &%s];\n\tps[1] = 9;\n"),
+    ("struct-literal", "\tvar h = P { q: &%s };\n\th.q = 9;\n"),
+    ("argument", "\tsetter(&%s);\n"),
+    ("address-assignment", "\tvar z: i32 = 0;\n\tvar p: &i32 = &z;\n\t&p = &%s;\n\tp = 9;\n"),
+    ("parenthesised", "\tvar p: &i32 = (&%s);\n\tp = 9;\n"),
+]
+
+
+def address_matrix():
+    out = []
+    for hid, hparam, harg, place, _t in ADDR_HOLD:
+        for pid, stmts in ADDR_POS:
+            src = ("struct S\n{\n\ta: i32,\n\tc: i32,\n}\nstruct T\n{\n\tarr: [4]i32,\n}\nstruct P\n{\n\tq: &i32,\n}\n"
+                   "const K: i32 = 2;\n"
+                   "fn setter(p: &i32)\n{\n\tp = 9;\n}\n%s"
+                   "fn callee(%s)\n{\n%s}\n"
+                   "fn main() -> i32\n{\n\tvar x: i32 = 2;\n\tvar data: [4]i32 = [1, 2, 3, 4];\n\tvar st: S = S { a: 2, c: 3 };\n"
+                   "\tvar tt: T = T { arr: [1, 2, 3, 4] };\n\tcallee(%s);\n"
+                   "\treturn: (x - 2) + (data[1] - 2) + (st.a - 2) + (tt.arr[1] - 2) + (K - 2)\n}\n"
+                   % ("", hparam, stmts % place, harg))
+            out.append(("address of %s in %s" % (hid, pid), src))
+    return out
+
+
 def main():
     rep = Reporter("C08")
     if not setup_common(rep, THEOREMS):
@@ -209,8 +251,8 @@ def main():
         else:
             rep.violation("static:" + src, {"why": "expected %s, compiler says %s %s" % ("E%d" % exp if exp else "acceptance", hh, codes),
                                             "source": src, "harness_request": "alpha\tcheck\tm.pn\t" + esc(src), "implementation": ha[:300]})
-    # forwarding matrix
-    fm = forwarding_matrix()
+    # forwarding matrix and address matrix
+    fm = forwarding_matrix() + address_matrix()
     fh = run_harness(["alpha\trun\tm.pn\t" + esc(src) for _, src in fm])
     for (what, src), ha in zip(fm, fh):
         total += 1
@@ -238,7 +280,7 @@ def main():
                 "struct view, a forwarded pointer and an aliasing pointer variable (random integer type and values): stdout vs the "
                 "Lean interpreter AND the static prediction 'unchanged unless passed with &'; plus the fixed rule table "
                 "(E530 writes/addresses, E531-E533 aggregate copies, E513 missing &) vs the compiler and the Lean writeVerdict; plus "
-                "the forwarding matrix: 10 ways a function can hold data x 13 parameter types of a writing callee x extern/plain x "
+                "the address matrix (6 immutable holders x 9 positions of `&`: declaration, array / structure literal, argument, address assignment ...: accepted implies the caller's data is untouched); the forwarding matrix: 10 ways a function can hold data x 13 parameter types of a writing callee x extern/plain x "
                 "direct/forwarded, every argument passed without `&`: whatever is accepted must leave the data unchanged",
         "traces_validated_against_impl": agreeing, "distribution": dict(dist), "samples": [srcs[0][:1200]],
     })
